@@ -170,6 +170,7 @@ for _p in ("C20", "C22", "C17", "C18", "C21", "C26"):
     _aug(_p, " + RP: every selection MC_Link checks (pairs, thorough triples, of 9 files x debug) assembled and linked by the real crate in every order and validated by TLC (MC_LinkRP)",
          " RP: MC_LinkRP prints each selection; the harness assembles the files and links the set in every order and bracketing; TV_Asm validates every step.")
 _aug("C18", " + RP: the text of every object of MC_TxtFormat's universe (760) through the real reader and back through the real writer (lc3v replay txt)", " RP: TxtWrite(o) of every object of the universe is given to the real text reader, which must build what TxtRead builds; the real writer must give the same text back.")
+_aug("C29", " + TLC: MC_Load (C29 stated on Machine!LoadBlocks for 644 objects x pre-states) + RP: each case performed with the real load_obj_file (lc3v replay load)", " MC_Load model-checks the statement on Machine!LoadBlocks for every object of one or two blocks of a small universe (x0000, user space, touching blocks, ending at xFDFF; initialized and reserved words in every arrangement of up to three words; neighbouring words initialized before or not) and prints each case; the harness assembles the object, loads it with the real load_obj_file and TV_Machine validates the full memory diff.")
 _aug("C25", " + RP: every string MC_SourceInfo checks (9 331) through the real SourceInfo (lc3v replay srcinfo)", " RP: the strings MC_SourceInfo enumerates are printed by TLC, put through the real SourceInfo and validated by TV_Tables.")
 _aug("C10", " + RP: every single placement MC_Interrupt explores (212 behaviours) replayed on the real simulator and validated (lc3v replay interrupt)",
      " RP: MC_InterruptRP prints every placement of one request (three priorities, two devices, every instruction boundary incl. inside the handler; program priority 0 and 4); each is performed on the real simulator with the model's program and handler and TV_Machine decides on IntGate and conformance.")
